@@ -395,6 +395,7 @@ def _solve_with_instantiation(assertions: List[Any], timeout_ms: int):
     if not any(_has_quantifier(a) for a in assertions):
         return _solve_portfolio(assertions, timeout_ms)
     cand = None
+    inst = None
     try:
         inst = _instantiate_once(assertions)
         if inst is not None:
@@ -406,6 +407,17 @@ def _solve_with_instantiation(assertions: List[Any], timeout_ms: int):
     except z3.Z3Exception:
         pass
     r, backend, s, reason = _solve_portfolio(assertions, timeout_ms)
+    if r == z3.unknown and cand is None and inst is not None:
+        # the short budget of the first round may have been too short on a busy machine: before giving up, ask the
+        # instantiated (ground) query again with the full budget - sat there is a candidate counter-model
+        try:
+            r1, b1, s1, _ = _solve_portfolio(inst, timeout_ms)
+            if r1 == z3.unsat:
+                return (z3.unsat, b1 + '+instantiation', None, '')
+            if r1 == z3.sat:
+                cand = s1
+        except z3.Z3Exception:
+            pass
     if r == z3.unknown and cand is not None:
         return (z3.sat, CANDIDATE, cand, reason)
     return (r, backend, s, reason)
@@ -588,7 +600,7 @@ def discharge_pool(sers: List[Dict[str, Any]], procs: Optional[int] = None) -> L
     procs = procs or min(16, os.cpu_count() or 4)
     if os.environ.get('VERIF_SERIAL') == '1' or len(sers) < 4:
         return [_solve_job(d) for d in sers]
-    hard_limit = 6.0 * (Z3_TIMEOUT_MS / 1000.0) + 3.0 * CVC5_TIMEOUT_S
+    hard_limit = 10.0 * (Z3_TIMEOUT_MS / 1000.0) + 5.0 * CVC5_TIMEOUT_S
     ctx = mp.get_context('fork')
     tasks, results = ctx.Queue(), ctx.Queue()
     for i in range(len(sers)):
